@@ -278,6 +278,132 @@ theorem trees_to_router (nets : List Net) (hwf : ∀ n ∈ nets, n.tree.WF)
   · intro j hj hjb
     exact readback_loaded_out (m ct.1) (buf ct.1) (baseOf pol m app ct) app ct.2 j hj hjb
 
+/-! ## a retransmitted `alloc_rtr` (first reply lost)
+
+`alloc_rtr` is not idempotent.  SCP retransmits a request whose reply did not arrive (C06); if it was
+the reply that was lost, the chip executes the allocation twice and the controller only ever learns the
+second base.  On the router specification: -/
+
+/-- the chip after it executed an allocation request whose reply never reached the controller -/
+def afterLostAlloc (pol : Pol) (s : Chip) (x y app n : Nat) : Chip := (stepChip pol s (allocReq x y app n)).1
+
+theorem afterLostAlloc_eq (pol : Pol) (s : Chip) (x y app n : Nat) (ha : app < 256)
+    (h : pol s.rows app n ≠ 0) :
+    afterLostAlloc pol s x y app n = { s with rows := claim s.rows (pol s.rows app n) n app } := by
+  simp [afterLostAlloc, step_alloc pol s x y app n ha, h]
+
+/-- **Retransmitted allocation leaks a block, the load is still exact.**  Let the chip execute the
+allocation of `n > 0` rows (answer `b1 ≠ 0`, reply lost) and then `load_routing_table_entries` run
+with its (retransmitted) allocation answered `b2 ≠ 0`.  Then: the two blocks are disjoint; the call
+returns normally and satisfies `LoadSpec` for the block `b2` it was told about, relative to the
+router as it was when that request was executed (rows `b2..b2+n-1` hold exactly the entries, every
+other row - including the leaked block - is as the first allocation left it); the rows `b1..b1+n-1`
+were free before, now belong to the application, carry no entry of the table, and no command ever
+refers to them - a leaked block; rows outside both blocks are as before the first request; and
+relative to the router *before* the lost request `LoadSpec` does not hold (the leak is visible as
+changed owner fields).  The clauses of the property (entries exact, block allocated for the
+application, read-back) hold; the leak is a resource observation. -/
+theorem alloc_retransmit_leak (pol : Pol) (s : Chip) (scpLen x y app buf : Nat) (entries : List Entry)
+    (hpol : PolValid pol) (hb : 0 < scpLen) (ha : app < 256) (hn : 0 < entries.length)
+    (hr : ∀ e ∈ entries, e.InRange) (hsv : SvWord s svSdramSys buf)
+    (hdis : buf + 16 * entries.length ≤ s.copyBase ∨ s.copyBase + 16 * rtrEntries ≤ buf)
+    (hb1 : pol s.rows app entries.length ≠ 0)
+    (hb2 : pol (afterLostAlloc pol s x y app entries.length).rows app entries.length ≠ 0) :
+    let n := entries.length
+    let b1 := pol s.rows app n
+    let s1 := afterLostAlloc pol s x y app n
+    let b2 := pol s1.rows app n
+    let out := run pol (loadEntries scpLen entries x y app (.ret ())) s1
+    (b1 + n ≤ b2 ∨ b2 + n ≤ b1) ∧
+    out.2.1 = .ok () ∧
+    out.2.2 = loadCmds scpLen x y app buf b2 entries ∧
+    LoadSpec s1.rows out.1.rows entries app b2 false true ∧
+    (∀ i, i < n → (s.rows (b1 + i)).owner = none ∧
+        out.1.rows (b1 + i) = { s.rows (b1 + i) with owner := some app }) ∧
+    (∀ j, ¬ (b1 ≤ j ∧ j < b1 + n) → ¬ (b2 ≤ j ∧ j < b2 + n) → out.1.rows j = s.rows j) ∧
+    ¬ LoadSpec s.rows out.1.rows entries app b2 false true := by
+  intro n b1 s1 b2 out
+  have hs1 : s1 = { s with rows := claim s.rows b1 n app } := afterLostAlloc_eq pol s x y app n ha hb1
+  have hfree1 : BlockFree s.rows b1 n := blockFree_of_pol hpol _ _ _ hb1
+  have hfree2 : BlockFree s1.rows b2 n := blockFree_of_pol hpol _ _ _ hb2
+  have hdisj : b1 + n ≤ b2 ∨ b2 + n ≤ b1 := by
+    by_cases h : b1 + n ≤ b2 ∨ b2 + n ≤ b1
+    · exact h
+    · exfalso
+      have hlt : b2 < b1 + n ∧ b1 < b2 + n := by omega
+      have hown := hfree2.2.2 (max b1 b2 - b2) (by omega)
+      have e : b2 + (max b1 b2 - b2) = max b1 b2 := by omega
+      rw [e, hs1] at hown
+      have hin : b1 ≤ max b1 b2 ∧ max b1 b2 < b1 + n := by omega
+      simp [claim, hin] at hown
+  have hlen : n < 65536 := by
+    have := hfree2.2.1; simp only [rtrEntries] at this; omega
+  have hsv1 : SvWord s1 svSdramSys buf := by rw [hs1]; exact hsv
+  have hdis1 : buf + 16 * n ≤ s1.copyBase ∨ s1.copyBase + 16 * rtrEntries ≤ buf := by rw [hs1]; exact hdis
+  have hrun : out = _ := load_run pol s1 scpLen x y app buf entries (.ret ()) hb ha hb2 hlen hr hsv1 hdis1
+  have hrows : out.1.rows = (loadedChip s1 buf b2 app entries).rows := by rw [hrun]; rfl
+  have hleak : ∀ i, i < n → out.1.rows (b1 + i) = { s.rows (b1 + i) with owner := some app } := by
+    intro i hi
+    rw [hrows, loaded_rows_out s1 buf b2 app entries (b1 + i) (by omega), hs1]
+    have hin : b1 ≤ b1 + i ∧ b1 + i < b1 + n := by omega
+    simp [claim, hin]
+  refine ⟨hdisj, by rw [hrun]; rfl, by rw [hrun]; rfl, ?_, ?_, ?_, ?_⟩
+  · rw [hrows]; exact loadedChip_spec s1 buf b2 app entries hb2
+  · intro i hi
+    exact ⟨hfree1.2.2 i hi, hleak i hi⟩
+  · intro j h1 h2
+    rw [hrows, loaded_rows_out s1 buf b2 app entries j h2, hs1]
+    simp [claim, h1]
+  · intro hspec
+    have hb2' : b2 ≠ 0 := hb2
+    unfold LoadSpec at hspec
+    rw [if_neg hb2'] at hspec
+    have hb1r : b1 + 0 < rtrEntries := by have := hfree1.2.1; omega
+    have h := hspec.2.2 (b1 + 0) hb1r (by omega)
+    rw [hleak 0 hn] at h
+    have ho := hfree1.2.2 0 hn
+    have : (some app : Option Nat) = (s.rows (b1 + 0)).owner := by rw [← h]
+    rw [ho] at this
+    cases this
+
+/-- **Retransmitted allocation, second answer 0.**  If the second execution is refused (e.g. the
+first one took the last free block), the call raises the router error and sends nothing else - the
+clause "raises and installs nothing" holds - yet the block of the lost first answer stays owned by
+the application with no entries: leaked until the application's rows are freed. -/
+theorem alloc_retransmit_refused (pol : Pol) (s : Chip) (scpLen x y app : Nat) (entries : List Entry)
+    (hpol : PolValid pol) (ha : app < 256) (hb1 : pol s.rows app entries.length ≠ 0)
+    (hb2 : pol (afterLostAlloc pol s x y app entries.length).rows app entries.length = 0) :
+    let n := entries.length
+    let b1 := pol s.rows app n
+    let s1 := afterLostAlloc pol s x y app n
+    let out := run pol (loadEntries scpLen entries x y app (.ret ())) s1
+    out = (s1, .error (.routerError n x y), [allocReq x y app n]) ∧
+    LoadSpec s1.rows out.1.rows entries app 0 true false ∧
+    (∀ i, i < n → (s.rows (b1 + i)).owner = none ∧
+        out.1.rows (b1 + i) = { s.rows (b1 + i) with owner := some app }) := by
+  intro n b1 s1 out
+  have hs1 : s1 = { s with rows := claim s.rows b1 n app } := afterLostAlloc_eq pol s x y app n ha hb1
+  have hfree1 : BlockFree s.rows b1 n := blockFree_of_pol hpol _ _ _ hb1
+  have hf := load_alloc_failure pol s1 scpLen x y app entries (.ret ()) ha hb2
+  have hout : out = _ := hf.1
+  refine ⟨hout, by rw [hout]; exact hf.2, ?_⟩
+  intro i hi
+  refine ⟨hfree1.2.2 i hi, ?_⟩
+  rw [hout]
+  show s1.rows (b1 + i) = _
+  rw [hs1]
+  have hin : b1 ≤ b1 + i ∧ b1 + i < b1 + n := by omega
+  simp [claim, hin]
+
+/-- **The leak ends with the application.**  `clear_routing_table_entries` (and SC&MP's own clean-up
+when the application is stopped: `free_rtr_by_app`) frees every row owned by the application -
+including a leaked block. -/
+theorem leak_recovered_by_clear (pol : Pol) (s : Chip) (x y app : Nat) (ha : app < 256) (j : Nat)
+    (hown : (s.rows j).owner = some app) :
+    ((run pol (clearEntries x y app) s).1.rows j).owner = none ∧
+    ((run pol (clearEntries x y app) s).1.rows j).ent = none :=
+  ((clear_exact pol s x y app ha).2 j).1 hown
+
 /-- non-vacuity: a machine of empty routers with `sv` set up, two chips to load, first-fit
 everywhere (all succeed) or chip (1,0) refusing (first failing chip is the second of the dict) -/
 def exMachine : Machine := fun _ => exChip
@@ -315,6 +441,24 @@ example : (∀ c, PolValid (refuseAt (1, 0) c)) ∧
   split
   · intro _ _ _; exact Or.inl rfl
   · exact firstFit_valid
+
+/-- non-vacuity of the retransmission theorems: first fit on an empty router answers 1, then 4 for
+three rows; a policy that grants only while row 1 is free answers 1, then 0 -/
+example : firstFit exChip.rows 7 3 = 1 ∧ firstFit (afterLostAlloc firstFit exChip 0 0 7 3).rows 7 3 = 4 := by
+  refine ⟨by decide +kernel, ?_⟩
+  rw [afterLostAlloc_eq firstFit exChip 0 0 7 3 (by decide) (by decide +kernel)]
+  decide +kernel
+def onceOnly : Pol := fun rows app n => if (rows 1).owner = none then firstFit rows app n else 0
+example : PolValid onceOnly ∧ onceOnly exChip.rows 7 3 = 1 ∧
+    onceOnly (afterLostAlloc onceOnly exChip 0 0 7 3).rows 7 3 = 0 := by
+  refine ⟨?_, by decide +kernel, ?_⟩
+  · intro rows app n
+    unfold onceOnly
+    split
+    · exact firstFit_valid rows app n
+    · exact Or.inl rfl
+  · rw [afterLostAlloc_eq onceOnly exChip 0 0 7 3 (by decide) (by decide +kernel)]
+    decide +kernel
 
 /-- non-vacuity of `trees_to_router`: the example forest of Props/C10 is in range, converts, and the
 example machine grants every allocation -/
